@@ -836,6 +836,87 @@ func (e *env) acceptCode(outdir string) {
 	}
 }
 
+func assigns(st ast.Stmt, lhs, rhs string) bool {
+	as, ok := st.(*ast.AssignStmt)
+	return ok && as.Tok == token.ASSIGN && len(as.Lhs) == 1 && len(as.Rhs) == 1 && exprKey(as.Lhs[0]) == lhs && exprKey(as.Rhs[0]) == rhs
+}
+
+func mentions(stmts []ast.Stmt, name string) bool {
+	found := false
+	for _, st := range stmts {
+		ast.Inspect(st, func(n ast.Node) bool {
+			if id, ok := n.(*ast.Ident); ok && id.Name == name {
+				found = true
+			}
+			return true
+		})
+	}
+	return found
+}
+
+// writeCode writes Gen/WriteCode.v: the decisions writeFrame takes before it builds the header.
+func (e *env) writeCode(outdir string) {
+	var c strings.Builder
+	c.WriteString("(* GENERATED by /verif/tools/constx from /repo's working tree (write.go writeFrame) on every run — do not edit. *)\n")
+	c.WriteString("From Coq Require Import ZArith Bool.\n\n")
+	fd := e.fnIn("write.go", "writeFrame")
+	a := atoms{w: "writeFrame", b: map[string]string{"c.closeSent": "close_sent", "flate": "flate", "c.client": "client"}, z: map[string]string{"opcode": "opcode"}}
+	refused, sets, rsv1, masked := "", "", "", ""
+	posRefused, posSets := -1, -1
+	for i, st := range fd.Body.List {
+		is, ok := st.(*ast.IfStmt)
+		if !ok || is.Init != nil || is.Else != nil || len(is.Body.List) == 0 {
+			continue
+		}
+		body := is.Body.List
+		switch {
+		case mentions(body, "errCloseSent"):
+			if _, ok := body[len(body)-1].(*ast.ReturnStmt); !ok || refused != "" {
+				fail("writeFrame: the errCloseSent check is not a single returning if")
+			}
+			refused, posRefused = e.aCond(is.Cond, a), i
+		case len(body) == 1 && assigns(body[0], "c.closeSent", "true"):
+			if sets != "" {
+				fail("writeFrame: closeSent is set in two places")
+			}
+			sets, posSets = e.aCond(is.Cond, a), i
+		case len(body) == 1 && assigns(body[0], "c.writeHeader.rsv1", "true"):
+			if rsv1 != "" || i == 0 || !assigns(fd.Body.List[i-1], "c.writeHeader.rsv1", "false") {
+				fail("writeFrame: rsv1 is not `= false` followed by one conditional `= true`")
+			}
+			rsv1 = e.aCond(is.Cond, a)
+		case assigns(body[0], "c.writeHeader.masked", "true"):
+			if masked != "" {
+				fail("writeFrame: masked is set in two places")
+			}
+			masked = e.aCond(is.Cond, a)
+		}
+	}
+	if refused == "" || sets == "" || rsv1 == "" || masked == "" {
+		fail("writeFrame: one of the decisions (errCloseSent check, closeSent = true, rsv1, masked) was not found")
+	}
+	if posSets < posRefused {
+		fail("writeFrame: closeSent is set before it is checked")
+	}
+	// no other assignment to the flag or to the two header fields anywhere in the function
+	count := map[string]int{}
+	ast.Inspect(fd, func(n ast.Node) bool {
+		if as, ok := n.(*ast.AssignStmt); ok && len(as.Lhs) == 1 {
+			count[exprKey(as.Lhs[0])]++
+		}
+		return true
+	})
+	if count["c.closeSent"] != 1 || count["c.writeHeader.rsv1"] != 2 || count["c.writeHeader.masked"] != 1 {
+		fail("writeFrame: unexpected further assignments to closeSent / rsv1 / masked: %v", count)
+	}
+	fmt.Fprintf(&c, "(* a frame that is refused (nothing written) because a Close frame has been written *)\nDefinition gen_refused_after_close (close_sent : bool) (opcode : Z) : bool :=\n  %s.\n\n", refused)
+	fmt.Fprintf(&c, "(* a frame that sets the close-sent flag (checked above, set after the check) *)\nDefinition gen_sets_close_sent (opcode : Z) : bool :=\n  %s.\n\n", sets)
+	fmt.Fprintf(&c, "(* the RSV1 bit and the MASK bit of the header *)\nDefinition gen_rsv1 (flate : bool) (opcode : Z) : bool :=\n  %s.\nDefinition gen_masked (client : bool) : bool :=\n  %s.\n", rsv1, masked)
+	if err := os.WriteFile(filepath.Join(outdir, "WriteCode.v"), []byte(c.String()), 0o644); err != nil {
+		fail("%v", err)
+	}
+}
+
 func main() {
 	if len(os.Args) != 3 {
 		fail("usage: constx <repo> <outdir>")
@@ -947,4 +1028,5 @@ func main() {
 	e.frameCode(outdir)
 	e.readCode(outdir)
 	e.acceptCode(outdir)
+	e.writeCode(outdir)
 }
